@@ -56,6 +56,8 @@ class World:
             for k in range(d):
                 n = self.N[k].as_poly()
                 self.t.append(self.ctx.pos_symbol(AX[k], Poly.const(M), n + (1 - M)))
+        # per-axis 'generic' cell coordinate: the position symbol, or the middle cell of a concrete grid
+        self.g = list(self.t) if self.symbolic else [Rat.const(max(1, (int(n.const_value()) + 1) // 2)) for n in self.N]
         self.pos_atoms = set()
         self.nonneg_atoms = set()
         self._zcount = 0
